@@ -52,6 +52,7 @@ func (in *Interp) loadBuiltins() {
 		i := bytes.IndexByte(in.Stdin, '\n')
 		if i < 0 {
 			in.Stdin = nil
+			in.op = "read"
 			in.fail(ErrRead)
 		}
 		line := string(in.Stdin[:i+1])
@@ -70,6 +71,7 @@ func (in *Interp) loadBuiltins() {
 	in.native("aton", []string{"v"}, func(in *Interp, a *activation) Value {
 		v, _ := a.get("v")
 		if v.K != KString {
+			in.op = "aton"
 			in.fail(ErrType, v)
 		}
 		if i, err := strconv.Atoi(v.s); err == nil {
@@ -78,6 +80,7 @@ func (in *Interp) loadBuiltins() {
 		if f, err := strconv.ParseFloat(v.s, 64); err == nil {
 			return Float(f)
 		}
+		in.op = "aton"
 		in.fail(ErrConversion, v)
 		return Nil
 	})
